@@ -197,6 +197,10 @@ func c17Child(args []string) {
 		mk := func(from string) (msgs []*fbb.Message, mids []string) {
 			for k := r.Intn(3); k >= 0; k-- {
 				mid := fmt.Sprintf("S%d%s%dM%s", i, from[2:3], k, r.Mid()) // distinct within the scenario
+				if (i+k)%3 == 1 {
+					// message identifiers are case sensitive: reports must name the message as it is
+					mid = fmt.Sprintf("s%d%s%dm%sQ%s", i, strings.ToLower(from[2:3]), k, strings.ToLower(r.Mid()), r.Mid())
+				}
 				m := fbb.NewMessage(fbb.Private, from)
 				m.Header.Set("Mid", mid)
 				m.AddTo("N0CALL")
